@@ -14,6 +14,7 @@
 (*   swtab     the switch's real flow table                                   *)
 (*   c2s, s2c  the two directions of the OpenFlow channel (FIFO, messages)    *)
 (*   conn      up / down / gone (reconnect timeout passed: entity forgotten)  *)
+(*             / orphan (connected again but without entity, "RejoinFails")   *)
 (*   want      GHOST: the table an ideal switch would hold after the          *)
 (*             operations the application issued, in the order issued         *)
 (*                                                                            *)
@@ -22,7 +23,8 @@
 (* reading one message (SwRx), the controller reading one message (CtlRx =    *)
 (* _handle_BarrierIn or _handle_FlowRemoved), time passing (Tick), the        *)
 (* connection going away (Down) and coming back (Up = handshake +             *)
-(* _sync_pending(clear)), the reconnect timeout (Expire).                     *)
+(* _sync_pending(clear)), the reconnect timeout (Expire) and a connection     *)
+(* after it (Join).                                                           *)
 (*                                                                            *)
 (* Entry objects are identities 1..K with a fixed (match, priority); a match  *)
 (* is two fields (in_port, dl_type), 0 = wildcarded.                          *)
